@@ -462,4 +462,6 @@ pub fn c03(out: &mut Out, rng: &mut Rng, tier: &Tier) {
     cases::<debruijn::kmer::Kmer16>(out, rng, tier);
     cases::<debruijn::kmer::VarIntKmer<u64, debruijn::kmer::K31>>(out, rng, tier);
     cases::<debruijn::kmer::Kmer32>(out, rng, tier);
+    // a full-width VarIntKmer (the crate's public marker K4): same strings as Kmer4 through the other implementation
+    cases::<debruijn::kmer::VarIntKmer<u8, debruijn::kmer::K4>>(out, rng, tier);
 }
